@@ -396,6 +396,40 @@ theorem first_start_bol {t : FState} {c : Rune} (hr : Reg t) (hc : startCh c = t
         FState.indent, FState.write, tabsN, hn, rClose, rTAB]
   )
 
+/-- right after a `}` at nesting 0, on the same line (only a comment gets here in the fragment):
+    it is moved two lines down -/
+theorem first_start_cls0 {t : FState} {c : Rune} (hr : Reg t) (hc : startCh c = true)
+    (h1 : t.space = true) (h2 : (t.openBrace && !t.openBraceWritten) = false) (h3 : t.newLines = 0) (h4 : t.bol = true)
+    (h5 : t.last = 125) (h6 : t.nesting = 0) :
+    step t c = { t with rout := c :: rNL :: rNL :: t.rout, last := c, space := false, bol := false, comment := c == rHash } := by
+  have h60 : c ≠ 60 := (startCh_spec hc).2.2.1
+  rw [step_start hr hc]
+  destruct_state t
+  simp only at h1 h2 h3 h4 h5 h6
+  subst h1 h3 h4 h5 h6
+  cases ob <;> cases obw <;> simp at h2
+  all_goals (
+    simp [maybeFlush, stepWord, stepWord2, stepWord3, stepWord4, stepWord5, stepWord6, FState.nextLines, FState.tabs,
+      FState.indent, FState.nextLine, FState.write, rClose, rNL]
+  )
+
+/-- right after a `}` inside a block, on the same line: the indentation is written between the
+    brace and the comment -/
+theorem first_start_clsN {t : FState} {c : Rune} (hr : Reg t) (hc : startCh c = true)
+    (h1 : t.space = true) (h2 : (t.openBrace && !t.openBraceWritten) = false) (h3 : t.newLines = 0) (h4 : t.bol = true)
+    (h6 : t.nesting ≠ 0) :
+    step t c = { t with rout := c :: (tabsN t.nesting ++ t.rout), last := c, space := false, bol := false, comment := c == rHash } := by
+  have h60 : c ≠ 60 := (startCh_spec hc).2.2.1
+  rw [step_start hr hc]
+  destruct_state t
+  simp only at h1 h2 h3 h4 h6
+  subst h1 h3 h4
+  cases ob <;> cases obw <;> simp at h2
+  all_goals (
+    simp [maybeFlush, stepWord, stepWord2, stepWord3, stepWord4, stepWord5, stepWord6, FState.nextLines, tabs_eq,
+      FState.indent, FState.write, tabsN, h6, rClose, rTAB]
+  )
+
 /-- no `{` pending, right after a newline was written: `}` needs no further newline -/
 theorem first_close_bol {t : FState} (hr : Reg t) (h1 : t.space = true) (h2 : (t.openBrace && !t.openBraceWritten) = false) (h3 : t.last = 10) :
     step t rClose = { t with rout := rClose :: (tabsN (t.nesting - 1) ++ t.rout), last := rClose,
@@ -1366,6 +1400,30 @@ theorem p_cmt_sp {N : Nat} {s : FState} {sep : List Rune} {as : List Rune}
   rw [this.2]
   simp [afterSep]
 
+/-- after a `}`, same line: a comment (indentation in between; at nesting 0 two newlines) -/
+theorem c_cmt_same {N : Nat} {s : FState} {sep : List Rune} {as : List Rune}
+    (h : InvC N s) (hsep : sep.all wsCh = true) (hne : sep ≠ []) (hnl : countNL sep = 0)
+    (has : as.all cmtCh = true) (hlast : isSpace (lastOf rHash as) = false) :
+    InvM N ((sep ++ rHash :: as).foldl step s) ∧
+      ((sep ++ rHash :: as).foldl step s).rout = as.reverse ++ (rHash :: (sameLine (some .cls) N).reverse ++ s.rout) := by
+  rw [List.foldl_append, foldl_ws sep s h.reg hsep hne]
+  have hreg := reg_afterSep h.reg sep
+  by_cases hN : N = 0
+  · have hstep := first_start_cls0 (t := afterSep s sep) hreg hash_start rfl h.nb (by simp [afterSep, h.nl, hnl]) h.bol h.last
+      (by simp [afterSep, h.nest, hN])
+    have := cmt_word (N := N) (as := as) hstep has hlast rfl hreg.quoted hreg.escaped hreg.heredoc hreg.bq hreg.hst hreg.te hreg.cont
+      rfl (by simp [afterSep, h.nl, hnl]) h.nb h.nest rfl ⟨_, rfl⟩
+    refine ⟨this.1, ?_⟩
+    rw [this.2]
+    simp [afterSep, sameLine, hN]
+  · have hstep := first_start_clsN (t := afterSep s sep) hreg hash_start rfl h.nb (by simp [afterSep, h.nl, hnl]) h.bol
+      (by simp [afterSep, h.nest, hN])
+    have := cmt_word (N := N) (as := as) hstep has hlast rfl hreg.quoted hreg.escaped hreg.heredoc hreg.bq hreg.hst hreg.te hreg.cont
+      rfl (by simp [afterSep, h.nl, hnl]) h.nb h.nest rfl ⟨_, rfl⟩
+    refine ⟨this.1, ?_⟩
+    rw [this.2]
+    simp [afterSep, sameLine, hN, h.nest, reverse_tabsN]
+
 /-- after a plain word, same line: `{` (kept back, a blank is written) -/
 theorem p_open {N : Nat} {s : FState} {sep : List Rune}
     (h : InvP N s) (hsep : sep.all wsCh = true) (hne : sep ≠ []) (hnl : countNL sep = 0) :
@@ -1878,7 +1936,7 @@ theorem chunk_step_core {prev : Option Kind} {N : Nat} {s : FState} {c : Chunk} 
           · have := p_lb_sp hinv' hsep hcond.1 hnl hc' has
             refine ⟨this.1, ?_⟩
             rw [outOf_np this.1.np, outOf_np hinv'.np, this.2]
-            simp [canonSep, hk, Chunk.nl, hnl]
+            simp [canonSep, sameLine, hk, Chunk.nl, hnl]
           · have := p_lb_nl hinv' hsep (by omega) hc' has
             refine ⟨this.1, ?_⟩
             rw [outOf_np this.1.np, outOf_np hinv'.np, this.2]
@@ -1893,10 +1951,11 @@ theorem chunk_step_core {prev : Option Kind} {N : Nat} {s : FState} {c : Chunk} 
         | cls =>
           have hinv' : InvC N s := hinv
           simp only [hk, Bool.and_eq_true, decide_eq_true_eq] at hcond
-          have := c_lb_nl hinv' hsep hcond.1 hc' has
+          have hge : 1 ≤ countNL c.sep := by simpa [Chunk.nl] using hcond.1
+          have := c_lb_nl hinv' hsep hge hc' has
           refine ⟨this.1, ?_⟩
           rw [outOf_np this.1.np, outOf_np hinv'.np, this.2]
-          have hnl : countNL c.sep ≠ 0 := by have := hcond.1; unfold Chunk.nl at this; omega
+          have hnl : countNL c.sep ≠ 0 := by omega
           simp [canonSep, braceLead, hk, Chunk.nl, hnl, reverse_tabsN, reverse_nlsN]
         | dq => exact absurd rfl hp
         | cmt =>
@@ -1939,7 +1998,7 @@ theorem chunk_step_core {prev : Option Kind} {N : Nat} {s : FState} {c : Chunk} 
           · have := p_plain_sp hinv' hsep hcond.1 hnl ha has
             refine ⟨this.1, ?_⟩
             rw [outOf_np this.1.np, outOf_np hinv'.np, this.2]
-            simp [canonSep, hbl, hk, Chunk.nl, hnl]
+            simp [canonSep, sameLine, hbl, hk, Chunk.nl, hnl]
           · have := np_plain_nl hinv'.np hsep (by omega) ha has
             refine ⟨this.1, ?_⟩
             rw [outOf_np this.1.np, outOf_np hinv'.np, this.2]
@@ -1954,10 +2013,11 @@ theorem chunk_step_core {prev : Option Kind} {N : Nat} {s : FState} {c : Chunk} 
         | cls =>
           have hinv' : InvC N s := hinv
           simp only [hk, Bool.and_eq_true, decide_eq_true_eq] at hcond
-          have := np_plain_nl hinv'.np hsep hcond.1 ha has
+          have hge : 1 ≤ countNL c.sep := by simpa [Chunk.nl] using hcond.1
+          have := np_plain_nl hinv'.np hsep hge ha has
           refine ⟨this.1, ?_⟩
           rw [outOf_np this.1.np, outOf_np hinv'.np, this.2]
-          have hnl : countNL c.sep ≠ 0 := by have := hcond.1; unfold Chunk.nl at this; omega
+          have hnl : countNL c.sep ≠ 0 := by omega
           simp [canonSep, hbl, hk, Chunk.nl, hnl, reverse_tabsN, reverse_nlsN]
         | dq => exact absurd rfl hp
         | cmt =>
@@ -1999,7 +2059,7 @@ theorem chunk_step_core {prev : Option Kind} {N : Nat} {s : FState} {c : Chunk} 
         · have := p_cmt_sp hinv' hsep hcond.1 hnl has hlast
           refine ⟨this.1, ?_⟩
           rw [outOf_m this.1, outOf_np hinv'.np, this.2]
-          simp [canonSep, hbl, hk, Chunk.nl, hnl]
+          simp [canonSep, sameLine, hbl, hk, Chunk.nl, hnl]
         · have := np_cmt_nl hinv'.np hsep (by omega) has hlast
           refine ⟨this.1, ?_⟩
           rw [outOf_m this.1, outOf_np hinv'.np, this.2]
@@ -2021,11 +2081,23 @@ theorem chunk_step_core {prev : Option Kind} {N : Nat} {s : FState} {c : Chunk} 
       | cls =>
         have hinv' : InvC N s := hinv
         simp only [hk, Bool.and_eq_true, decide_eq_true_eq] at hcond
-        have := np_cmt_nl hinv'.np hsep hcond.1 has hlast
-        refine ⟨this.1, ?_⟩
-        rw [outOf_m this.1, outOf_np hinv'.np, this.2]
-        have hnl : countNL c.sep ≠ 0 := by have := hcond.1; unfold Chunk.nl at this; omega
-        simp [canonSep, hbl, hk, Chunk.nl, hnl, reverse_tabsN, reverse_nlsN]
+        by_cases hnl : countNL c.sep = 0
+        · -- a comment on the same line as the `}`
+          have hne : c.sep ≠ [] := by
+            have h1 := hcond.1
+            simp only [Bool.or_eq_true, decide_eq_true_eq, Bool.and_eq_true, Bool.not_eq_true',
+              List.isEmpty_eq_false_iff] at h1
+            rcases h1 with h1 | h1
+            · exact countNL_pos_ne_nil h1
+            · exact h1.2
+          have := c_cmt_same hinv' hsep hne hnl has hlast
+          refine ⟨this.1, ?_⟩
+          rw [outOf_m this.1, outOf_np hinv'.np, this.2]
+          simp [canonSep, hk, Chunk.nl, hnl]
+        · have := np_cmt_nl hinv'.np hsep (by omega) has hlast
+          refine ⟨this.1, ?_⟩
+          rw [outOf_m this.1, outOf_np hinv'.np, this.2]
+          simp [canonSep, hbl, hk, Chunk.nl, hnl, reverse_tabsN, reverse_nlsN]
       | dq => exact absurd rfl hp
       | cmt =>
         have hinv' : InvM N s := hinv
@@ -2066,7 +2138,7 @@ theorem chunk_step_core {prev : Option Kind} {N : Nat} {s : FState} {c : Chunk} 
           · have := p_dq_sp hinv' hsep hcond.1 hnl has
             refine ⟨this.1, ?_⟩
             rw [outOf_q this.1, outOf_np hinv'.np, this.2]
-            simp [canonSep, hbl, hk, Chunk.nl, hnl]
+            simp [canonSep, sameLine, hbl, hk, Chunk.nl, hnl]
           · have := np_dq_nl hinv'.np hsep (by omega) has
             refine ⟨this.1, ?_⟩
             rw [outOf_q this.1, outOf_np hinv'.np, this.2]
@@ -2081,10 +2153,11 @@ theorem chunk_step_core {prev : Option Kind} {N : Nat} {s : FState} {c : Chunk} 
         | cls =>
           have hinv' : InvC N s := hinv
           simp only [hk, Bool.and_eq_true, decide_eq_true_eq] at hcond
-          have := np_dq_nl hinv'.np hsep hcond.1 has
+          have hge : 1 ≤ countNL c.sep := by simpa [Chunk.nl] using hcond.1
+          have := np_dq_nl hinv'.np hsep hge has
           refine ⟨this.1, ?_⟩
           rw [outOf_q this.1, outOf_np hinv'.np, this.2]
-          have hnl : countNL c.sep ≠ 0 := by have := hcond.1; unfold Chunk.nl at this; omega
+          have hnl : countNL c.sep ≠ 0 := by omega
           simp [canonSep, hbl, hk, Chunk.nl, hnl, reverse_tabsN, reverse_nlsN]
         | dq => exact absurd rfl hp
         | cmt =>
@@ -2124,7 +2197,7 @@ theorem chunk_step_core {prev : Option Kind} {N : Nat} {s : FState} {c : Chunk} 
           · have := p_bq_sp hinv' hsep hcond.1 hnl has
             refine ⟨this.1, ?_⟩
             rw [outOf_q this.1, outOf_np hinv'.np, this.2]
-            simp [canonSep, hbl, hk, Chunk.nl, hnl]
+            simp [canonSep, sameLine, hbl, hk, Chunk.nl, hnl]
           · have := np_bq_nl hinv'.np hsep (by omega) has
             refine ⟨this.1, ?_⟩
             rw [outOf_q this.1, outOf_np hinv'.np, this.2]
@@ -2139,10 +2212,11 @@ theorem chunk_step_core {prev : Option Kind} {N : Nat} {s : FState} {c : Chunk} 
         | cls =>
           have hinv' : InvC N s := hinv
           simp only [hk, Bool.and_eq_true, decide_eq_true_eq] at hcond
-          have := np_bq_nl hinv'.np hsep hcond.1 has
+          have hge : 1 ≤ countNL c.sep := by simpa [Chunk.nl] using hcond.1
+          have := np_bq_nl hinv'.np hsep hge has
           refine ⟨this.1, ?_⟩
           rw [outOf_q this.1, outOf_np hinv'.np, this.2]
-          have hnl : countNL c.sep ≠ 0 := by have := hcond.1; unfold Chunk.nl at this; omega
+          have hnl : countNL c.sep ≠ 0 := by omega
           simp [canonSep, hbl, hk, Chunk.nl, hnl, reverse_tabsN, reverse_nlsN]
         | dq => exact absurd rfl hp
         | cmt =>
@@ -2212,7 +2286,7 @@ theorem chunk_step_core {prev : Option Kind} {N : Nat} {s : FState} {c : Chunk} 
         have hinv' : InvC N s := hinv
         simp only [hk, Bool.and_eq_true, decide_eq_true_eq] at hcond
         have hl : s.last ≠ 10 := by rw [hinv'.last]; decide
-        have := np_close hinv'.np hsep (countNL_pos_ne_nil hcond.1) hl
+        have := np_close hinv'.np hsep (countNL_pos_ne_nil (by simpa [Chunk.nl] using hcond.1)) hl
         refine ⟨this.1, ?_⟩
         rw [outOf_np this.1.np, outOf_np hinv'.np, this.2]
         simp [canonSep, hk, reverse_tabsN]
@@ -2240,7 +2314,7 @@ theorem goodFrom_dq_plain (l : List Chunk) (hl : l ≠ []) : goodFrom (some .dq)
   | cons c cs => simp only [goodFrom]
 
 theorem canonSep_dq_plain (N : Nat) (c : Chunk) : canonSep (some .dq) N c = canonSep (some .plain) N c := by
-  simp [canonSep, braceLead]
+  simp [canonSep, braceLead, sameLine]
 
 /-- **one chunk**, for every kind of previous word: after a string the white space first clears
     `tokenEnded`, then everything is as after a plain word -/
